@@ -1327,3 +1327,33 @@ benign('benign-c08-tag-tryfrom', 'C08', 'crates/edp_client/src/control.rs', """ 
         let msg_type = msg_type_raw as u8;""", """        let msg_type = u8::try_from(msg_type_raw).map_err(|_| {
             Error::InvalidControlMessage(format!("Message type out of range: {}", msg_type_raw))
         })?;""")
+canary('c13-twin-sign-eq-one', 'C13', 'crates/erltf/src/decoder.rs', "BorrowedTerm::BigInt(BigInt::new(sign != 0, digits.to_vec())),", "BorrowedTerm::BigInt(BigInt::new(sign == 1, digits.to_vec())),", 'values')
+benign('benign-c13-twin-sign-gt-zero', 'C13', 'crates/erltf/src/decoder.rs', "BorrowedTerm::BigInt(BigInt::new(sign != 0, digits.to_vec())),", "BorrowedTerm::BigInt(BigInt::new(sign > 0, digits.to_vec())),")
+canary('c13-fun-ctor-args-swapped', 'C13', 'crates/erltf/src/decoder.rs', "arity, uniq_array, index, num_free, module, old_index, old_uniq, pid, free_vars,\n        ))),\n    ))\n}\n\n", "arity, uniq_array, index, num_free, module, old_uniq, old_index, pid, free_vars,\n        ))),\n    ))\n}\n\n", 'ORDER:')
+canary('c14-atom-walk-capped', 'C14', 'crates/erltf/src/encoder.rs', "fn collect_atoms<'a>(term: &'a OwnedTerm, atoms: &mut HashSet<&'a Atom>) {\n", "fn collect_atoms<'a>(term: &'a OwnedTerm, atoms: &mut HashSet<&'a Atom>) {\n    if atoms.len() >= 255 {\n        return;\n    }\n", 'walk-capped')
+benign('benign-c14-atom-walk-stops-over-limit', 'C14', 'crates/erltf/src/encoder.rs', "fn collect_atoms<'a>(term: &'a OwnedTerm, atoms: &mut HashSet<&'a Atom>) {\n", "fn collect_atoms<'a>(term: &'a OwnedTerm, atoms: &mut HashSet<&'a Atom>) {\n    if atoms.len() > 255 {\n        return;\n    }\n")
+canary('c14-cache-ref-default-index', 'C14', 'crates/erltf/src/encoder.rs', """    if let Some(atom_index_map) = cache
+        && let Some(&cache_index) = atom_index_map.get(&atom)
+    {""", """    if let Some(atom_index_map) = cache {
+        let cache_index = atom_index_map.get(&atom).copied().unwrap_or_default();""", 'cache-ref-without-hit')
+canary('c11-pid-ord-tuple-fields-crossed', 'C11', 'crates/erltf/src/types.rs', "            other.id,\n            other.serial,\n            other.creation,\n        ))", "            other.id,\n            other.creation,\n            other.serial,\n        ))", 'CMPFIELDS')
+canary('c15-bigint-i64-max-rejected', 'C15', 'crates/erltf_serde/src/de.rs', "if magnitude <= i64::MAX as u64 {", "if magnitude < i64::MAX as u64 {", 'rejects-fitting-value')
+canary('c15-bigint-eight-digits-rejected', 'C15', 'crates/erltf_serde/src/de.rs', "    if big.digits.len() > 8 {\n        return None;", "    if big.digits.len() >= 8 {\n        return None;", 'rejects-short-digits')
+canary('c15-char-byte-length', 'C15', 'crates/erltf_serde/src/de.rs', """                let s = str::from_utf8(b).map_err(|e| Error::InvalidValue(e.to_string()))?;
+                let mut chars = s.chars();
+                if let Some(c) = chars.next()
+                    && chars.next().is_none()""", """                let s = str::from_utf8(b).map_err(|e| Error::InvalidValue(e.to_string()))?;
+                let mut chars = s.chars();
+                if let Some(c) = chars.next()
+                    && b.len() == 1""", 'char-byte-length')
+benign('benign-c15-char-length-prefilter', 'C15', 'crates/erltf_serde/src/de.rs', """                let s = str::from_utf8(b).map_err(|e| Error::InvalidValue(e.to_string()))?;
+                let mut chars = s.chars();
+                if let Some(c) = chars.next()
+                    && chars.next().is_none()""", """                let s = str::from_utf8(b).map_err(|e| Error::InvalidValue(e.to_string()))?;
+                let mut chars = s.chars();
+                if b.len() <= 4
+                    && let Some(c) = chars.next()
+                    && chars.next().is_none()""")
+canary('c20-mapset-guard-and', 'C20', 'crates/edp_elixir_terms/src/map_set.rs', 'if tuple.len() != 3 || tuple[0].atom_name() != Some("set") {', 'if tuple.len() != 3 && tuple[0].atom_name() != Some("set") {', 'PANIC:')
+canary('c20-iterator-wrapping-step', 'C20', 'crates/edp_elixir_terms/src/range.rs', "self.current = self.current.saturating_add(self.range.step);", "self.current = self.current.wrapping_add(self.range.step);", 'wrapping_add')
+benign('benign-c20-iterator-checked-step', 'C20', 'crates/edp_elixir_terms/src/range.rs', "self.current = self.current.saturating_add(self.range.step);", "self.current = self.current.checked_add(self.range.step).unwrap_or(i64::MAX);")
